@@ -1,5 +1,6 @@
 import Qryn.Sql.Segs
 import Qryn.Gen.Params
+import Qryn.Gen.GrammarFields
 namespace Driver.C10
 open Qryn Qryn.Lex Qryn.Sql
 
@@ -15,6 +16,7 @@ def handle : List String → Option String
   | ["like", h] => (ofHex h).map (fun b => hexOut (likeLiteral b))
   | ["lex", h] => (ofHex h).map (fun b => " ".intercalate ((lex b).map tokStr))
   | ["c10params"] => some (";".intercalate (Gen.params.map (fun (f, h, k, n) => f ++ "|" ++ h ++ "|" ++ k ++ "|" ++ n)))
+  | ["c10grammar"] => some (";".intercalate (Gen.grammarFields.map (fun (l, s, f, k, t) => l ++ "|" ++ s ++ "|" ++ f ++ "|" ++ k ++ "|" ++ t)))
   | ["kinds", h] => (ofHex h).map (fun b => " ".intercalate ((kinds b).map tokStr))
   | _ => none
 end Driver.C10
